@@ -51,7 +51,9 @@ def shards(tier, seed):
         for extra in (0, 1):
             nparts = {1: 1, 2: 1, 3: 2, 4: 6}.get(size, 4 if tier == "quick" else 24)
             for part in range(nparts):
-                stratum = list(b["stratum"]) if (b["stratum"] and size > b["max_full"]) else None
+                # thorough: every labelling of up to 6 elements for 1-D/2-D labels; 3-D labels of 6 elements one stratum of 9
+                full = size <= b["max_full"] and not (tier != "quick" and len(shp) == 3 and size > 4)
+                stratum = list(b["stratum"]) if (b["stratum"] and not full) else None
                 if stratum and size >= 8:
                     stratum = [81, b["stratum"][1] % 81]  # 3-D labels without size-1 dims: 6561 arrays, one stratum of 81
                 out.append(dict(shape=list(shp), extra=extra, part=part, nparts=nparts, tier=tier, stratum=stratum))
@@ -213,11 +215,12 @@ def run_shard(shard):
             # chunked: canonical spellings of the axis only (order/sign variants are covered eagerly)
             if not canonical or (quick and size > 4 and size < 8):
                 continue
-            for grid in grids if not quick else grids[:2] + grids[-1:]:
+            big = size > 4  # thorough, more than 4 label elements: five grids (first three, last two), both methods for sum only
+            for grid in (grids[:2] + grids[-1:]) if quick else (grids[:3] + grids[-2:]) if (big and len(grids) > 5) else grids:
                 for func in CHUNKED_FUNCS if not quick else ("sum", "nanmax", "nanargmax"):
                     if func == "nanargmax" and nax != 1:
                         continue
-                    for method in ("map-reduce", None) if not quick else ("map-reduce",) if nax < len(lab_shape) else (None,):
+                    for method in (("map-reduce", None) if (not big or func == "sum") else ("map-reduce",)) if not quick else ("map-reduce",) if nax < len(lab_shape) else (None,):
                         check_point(res, func, lab_shape, extra, lt, axis, grid=grid, method=method)
                         res.nontrivial += 1 if uneven else 0
     res.sample(dict(label_shape=list(lab_shape), extra_batch_dims=extra, array_shape=list(arr_shape), labels=list(labs[len(labs) // 2]) if labs else [],
